@@ -56,6 +56,9 @@ _KEEP_TIME = ('mutation:', 'args_mutated:', 'input_column_not_preserved')
 _KEEP_IO = ('args_mutated:',)
 
 
+warmup = cc.warmup
+
+
 def generate(rng, tier):
     kind = rng.child('c02kind').weighted([('core', 70), ('time', 15),
                                           ('io', 15)])
